@@ -350,10 +350,15 @@ def lexLe : List Int → List Int → Bool
   | _ :: _, [] => false
   | a :: as, b :: bs => if a < b then true else if b < a then false else lexLe as bs
 
-/-- `SortedList` of `(key[::-1], value)`. -/
+/-- `insort_left(prob_list, x)`: insert in front of the first element that is `≥ x`. -/
+def insortLeft (x : Item) : List Item → List Item
+  | [] => [x]
+  | y :: ys => if lexLe x.key y.key then x :: y :: ys else y :: insortLeft x ys
+
+/-- `SortedList` of `(key[::-1], value)`, filled by `insort_left` one `popitem()` at a time
+(the keys of a dict are distinct, so the order of insertion does not matter). -/
 def sortLevel (d : List Item) : List Item :=
-  (d.map (fun e => ({ e with key := e.key.reverse } : Item))).mergeSort
-    (fun a b => lexLe a.key b.key)
+  (d.map (fun e => ({ e with key := e.key.reverse } : Item))).foldl (fun acc e => insortLeft e acc) []
 
 /-- `while parent >= 0 and not offsets[parent]: offsets[parent] = allocated - parent; parent -= 1`
 (first argument: `parent + 1`). -/
